@@ -304,7 +304,7 @@ theorem accepted_alive (g : G) (t : Tid) (k : Key) (y : Nat) (h : y ∈ accOf (s
       · by_cases c1 : ∃ s g' as, pc = .joinFiltered s g' as
         · obtain ⟨s, g', as, rfl⟩ := c1
           rw [step_call_lock g i s g' as hp hb] at h
-          replace h : y ∈ ((get (set g.locks (s, g') (as, [])) k).map (·.2)).getD [] := h
+          replace h : y ∈ ((get (set g.locks (s, g') (i, as, [])) k).map (·.2.2)).getD [] := h
           rw [accOf_set] at h
           by_cases e : k = (s, g')
           · rw [if_pos e] at h; cases h
@@ -314,7 +314,7 @@ theorem accepted_alive (g : G) (t : Tid) (k : Key) (y : Nat) (h : y ∈ accOf (s
             cases todo with
             | nil =>
               rw [step_call_commit g i s g' as hp] at h
-              replace h : y ∈ ((get (erase g.locks (s, g')) k).map (·.2)).getD [] := h
+              replace h : y ∈ ((get (erase g.locks (s, g')) k).map (·.2.2)).getD [] := h
               rw [accOf_erase] at h
               by_cases e : k = (s, g')
               · rw [if_pos e] at h; cases h
@@ -323,7 +323,7 @@ theorem accepted_alive (g : G) (t : Tid) (k : Key) (y : Nat) (h : y ∈ accOf (s
               rw [step_call_one g i s g' as x todo hp] at h
               by_cases ok : joinOk g (s, g') x = true
               · simp only [ok, ↓reduceIte] at h
-                replace h : y ∈ ((get (set g.locks (s, g') (asOf g (s, g'), accOf g (s, g') ++ [x])) k).map (·.2)).getD [] := h
+                replace h : y ∈ ((get (set g.locks (s, g') (i, asOf g (s, g'), accOf g (s, g') ++ [x])) k).map (·.2.2)).getD [] := h
                 rw [accOf_set] at h
                 by_cases e : k = (s, g')
                 · rw [if_pos e] at h
